@@ -23,7 +23,8 @@ import (
 // alphabet  set g0 migrating to m1 | migrate ka | migrate kb | finalise g0 | failover m0->r0 (old master stays
 //           up as replica) | failover with the old master down | refresh round |
 //           failover announced by a host-removal notice after the proxy already refreshed once |
-//           GET ka | SET ka v | INCR kb | DEL ka | MGET ka kb kc | SET kc v | outage of m0 with a command meanwhile
+//           GET ka | SET ka v | INCR kb | DEL ka | MGET ka kb kc | SET kc v | outage of m0 with a command meanwhile |
+//           fail back (the old master promoted again) | the interim master goes away afterwards
 // bound     depth (quick 4, thorough 5); default schedule, fair random seed choice; x migration target owns no slots yet;
 //           x nodes announce host names (histories one level below the depth bound, and the full migration scripts)
 // oracle    no reply is a MOVED/ASK error; every reply equals the single-server reply (INCR makes a lost or
@@ -32,7 +33,7 @@ import (
 // ---------------------------------------------------------------------------
 
 var c04ops = []string{"migrating", "migrate-ka", "migrate-kb", "finalise", "failover", "failover-master-down", "refresh-round",
-	"GET ka", "SET ka", "INCR kb", "DEL ka", "MGET", "SET kc", "m0-outage", "failover-with-notice"}
+	"GET ka", "SET ka", "INCR kb", "DEL ka", "MGET", "SET kc", "m0-outage", "failover-with-notice", "failback", "former-interim-master-leaves"}
 
 type c04case struct {
 	Ops []int `json:"ops"`
@@ -173,6 +174,23 @@ func c04run(cs c04case) (sig, detail string) {
 				w.s.RefreshRound()
 				w.s.RefreshRound()
 				phase = "after failover with a removal notice"
+				continue
+			case "failback":
+				// after a failover the old master, now a replica, is promoted again (rolling upgrade): the same node id owns
+				// the same slots as before
+				if w.m0.MasterOf != w.r0 || cl.Owner[0] != w.r0 || w.m0.Down || w.r0.Down {
+					continue
+				}
+				cl.Failover(w.m0)
+				phase = "after a failover and a fail back"
+				continue
+			case "former-interim-master-leaves":
+				// the node that was master between failover and fail back (a replica again) goes away
+				if w.r0.MasterOf != w.m0 || cl.Owner[0] != w.m0 || w.r0.Down || phase != "after a failover and a fail back" {
+					continue
+				}
+				w.r0.Stop()
+				sched.WaitQuiescent()
 				continue
 			case "m0-outage":
 				// the owner of g0 is unreachable for a while (a command arrives meanwhile and may fail), then it is
@@ -335,7 +353,7 @@ func c04histories(env sched.Env) *sched.Report {
 	}
 	rec(nil)
 	// full migration scripts (longer than the depth bound)
-	for _, h := range [][]int{{8, 9, 0, 7, 9, 1, 7, 8, 9, 2, 9, 3, 7, 9, 11, 6, 6, 7, 9}, {9, 9, 0, 9, 2, 9, 10, 8, 3, 9, 11}, {8, 5, 7, 6, 6, 7, 8, 9}, {8, 9, 4, 8, 9, 7, 6, 9, 11}, {0, 8, 9, 10, 3, 6, 7, 9}} {
+	for _, h := range [][]int{{8, 9, 0, 7, 9, 1, 7, 8, 9, 2, 9, 3, 7, 9, 11, 6, 6, 7, 9}, {9, 9, 0, 9, 2, 9, 10, 8, 3, 9, 11}, {8, 5, 7, 6, 6, 7, 8, 9}, {8, 9, 4, 8, 9, 7, 6, 9, 11}, {0, 8, 9, 10, 3, 6, 7, 9}, {8, 4, 6, 7, 15, 6, 16, 7, 8, 9}, {4, 6, 15, 6, 16, 8, 7, 11}} {
 		n++
 		if n%env.NShards != env.Shard {
 			continue
